@@ -6,7 +6,13 @@
 #include <climits>
 #include <tuple>
 #include "common/trace.hpp"
+// every fetch of a variadic argument by the library is counted (C20: none beyond those supplied)
+static long long g_fetches;
+#undef va_arg
+#define va_arg(ap, T) (g_fetches++, __builtin_va_arg(ap, T))
 #include <frg/printf.hpp>
+#include <frg/cmdline.hpp>
+#include <frg/array.hpp>
 #include <frg/formatting.hpp>
 #include <frg/logging.hpp>
 #include <frg/string.hpp>
@@ -14,13 +20,13 @@
 using namespace vt;
 
 // ---------------------------------------------------------------- counting va_arg for C20
-static long long g_fetches, g_supplied;
 
+struct OutputLimit {};
 struct ByteSink {
 	std::vector<long long> bytes;
 	size_t limit = 1 << 20;
-	long long total = 0;
-	void append(char c) { total++; if(bytes.size() < limit) bytes.push_back((unsigned char)c); }
+	long long total = 0, hard_limit = -1;     // hard_limit: stop absurd widths (parser inputs) by unwinding
+	void append(char c) { total++; if(hard_limit >= 0 && total > hard_limit) throw OutputLimit{}; if(bytes.size() < limit) bytes.push_back((unsigned char)c); }
 	void append(const char *s) { while(*s) append(*s++); }
 	void append(const char *s, size_t n) { for(size_t i = 0; i < n; i++) append(s[i]); }
 };
@@ -35,8 +41,9 @@ struct Agent {
 		case 'd': case 'i': case 'o': case 'x': case 'X': case 'b': case 'B': case 'u': frg::do_printf_ints(*sink, t, opts, szmod, vsp); break;
 		case 'f': case 'F': case 'g': case 'G': case 'e': case 'E': frg::do_printf_floats(*sink, t, opts, szmod, vsp); break;
 		default:
-			// an agent has to do something with a conversion it does not know: report it
-			return frg::format_error::agent_error;
+			// an agent may simply ignore a conversion it does not know; the parser has to stay inside the
+			// format string all the same
+			break;
 		}
 		return frg::success;
 	}
@@ -76,6 +83,7 @@ static void dispatch(const std::vector<Arg> &args, size_t i, F &&f, Ts... acc) {
 		else if(a.t == "ullong") dispatch(args, i + 1, f, acc..., (unsigned long long)a.u);
 		else if(a.t == "str") dispatch(args, i + 1, f, acc..., (const char *)a.s.c_str());
 		else if(a.t == "ptr") dispatch(args, i + 1, f, acc..., (void *)(uintptr_t)a.u);
+		else if(a.t == "wstr") dispatch(args, i + 1, f, acc..., (const wchar_t *)L"wide");
 	}
 }
 
@@ -140,6 +148,73 @@ int main(int argc, char **argv) {
 					frg::format(frg::fmt(frg::string_view(exact, f.size()), x, y, sarg.c_str()), sink);
 					free(exact);
 					Ev("Fmt").raw("fmt", jarr(bytes_of(f))).i("x", x).i("y", y).raw("s", jarr(bytes_of(sarg))).raw("out", jarr(sink.bytes)).emit();
+				} else if(mode == "pf_fuzz") {
+					// printf_format on an arbitrary byte string placed in an exact-size, NUL-terminated heap buffer
+					std::vector<long long> in; const J *jb = j.get("in"); for(size_t i = 0; i < jb->size(); i++) in.push_back((*jb)[i].n);
+					char *buf = (char *)malloc(in.size() + 1); for(size_t i = 0; i < in.size(); i++) buf[i] = (char)in[i]; buf[in.size()] = 0;
+					std::vector<Arg> args; const J *ja = j.get("args");
+					for(size_t i = 0; ja && i < ja->size(); i++) { Arg g; g.t = (*ja)[i][0].s; g.s = (*ja)[i][1].s; g.v = strtoll(g.s.c_str(), nullptr, 10); g.u = strtoull(g.s.c_str(), nullptr, 10); args.push_back(g); }
+					long long positional = j.num("positional");
+					ByteSink sink; sink.hard_limit = 200000; sink.limit = 64;
+					const char *outcome = "completed"; int ok = 1;
+					g_fetches = 0;
+					static const char *safe = "str";
+					try {
+						if(positional) ok = frg_vformat(sink, buf, safe, safe, safe, safe, safe, safe, safe, safe, safe);
+						else dispatch(args, 0, [&](auto... xs) { ok = frg_vformat(sink, buf, xs...); });
+						if(!ok) outcome = "agent-error";
+					} catch(OutputLimit &) { outcome = "output-limit"; }
+					catch(Panic &) { outcome = "assertion"; }
+					Ev("Parsed").str("parser", "printf").raw("in", jarr(in)).str("outcome", outcome).i("fetches", g_fetches).i("supplied", positional ? 9 : (long long)args.size()).emit();
+					free(buf);
+				} else if(mode == "fmt_fuzz") {
+					std::vector<long long> in; const J *jb = j.get("in"); for(size_t i = 0; i < jb->size(); i++) in.push_back((*jb)[i].n);
+					char *buf = (char *)malloc(in.size() ? in.size() : 1); for(size_t i = 0; i < in.size(); i++) buf[i] = (char)in[i];
+					ByteSink sink; sink.hard_limit = 200000; const char *outcome = "completed";
+					try { frg::format(frg::fmt(frg::string_view(buf, in.size()), 10ll, 200ll, "s"), sink); } catch(Panic &) { outcome = "assertion"; }
+					catch(OutputLimit &) { outcome = "output-limit"; }
+					Ev("Parsed").str("parser", "fmt").raw("in", jarr(in)).str("outcome", outcome).i("fetches", 0).i("supplied", 0).raw("out", jarr(sink.bytes)).emit();
+					free(buf);
+				} else if(mode == "cmdline") {
+					std::vector<long long> in; const J *jb = j.get("in"); for(size_t i = 0; i < jb->size(); i++) in.push_back((*jb)[i].n);
+					char *buf = (char *)malloc(in.size() ? in.size() : 1); for(size_t i = 0; i < in.size(); i++) buf[i] = (char)in[i];
+					bool flag = false, flag2 = false; frg::string_view sv{}, sv2{}; uint32_t num = 0; bool dupflag = false;
+					long long table = j.num("table");
+					const char *outcome = "completed";
+					try {
+						if(table == 0) {
+							frg::array args = { frg::option{"a", frg::store_true(flag)}, frg::option{"aa", frg::as_string_view(sv)}, frg::option{"1", frg::as_number(num)} };
+							frg::parse_arguments(frg::string_view(buf, in.size()), args);
+						} else {
+							// duplicates and an empty option name
+							frg::array args = { frg::option{"a", frg::store_true(flag)}, frg::option{"a", frg::store_true(dupflag)}, frg::option{"", frg::store_true(flag2)}, frg::option{"a", frg::as_string_view(sv2)} };
+							frg::parse_arguments(frg::string_view(buf, in.size()), args);
+						}
+					} catch(Panic &) { outcome = "assertion"; }
+					// option targets may only point into the command line
+					auto inside = [&](frg::string_view v) { return v.size() == 0 || (v.data() >= buf && v.data() + v.size() <= buf + in.size()); };
+					Ev ev("Parsed"); ev.str("parser", "cmdline").raw("in", jarr(in)).str("outcome", outcome).i("fetches", 0).i("supplied", 0).i("table", table)
+						.i("flag", flag ? 1 : 0).i("flag2", flag2 ? 1 : 0).i("dup", dupflag ? 1 : 0).i("num", (long long)num).i("targets_inside", inside(sv) && inside(sv2) ? 1 : 0);
+					std::vector<long long> svb; if(inside(sv)) for(size_t i = 0; i < sv.size(); i++) svb.push_back((unsigned char)sv.data()[i]);
+					std::vector<long long> svb2; if(inside(sv2)) for(size_t i = 0; i < sv2.size(); i++) svb2.push_back((unsigned char)sv2.data()[i]);
+					ev.raw("sv", jarr(svb)).raw("sv2", jarr(svb2)).emit();
+					free(buf);
+				} else if(mode == "tonumber") {
+					std::vector<long long> in; const J *jb = j.get("in"); for(size_t i = 0; i < jb->size(); i++) in.push_back((*jb)[i].n);
+					char *buf = (char *)malloc(in.size() ? in.size() : 1); for(size_t i = 0; i < in.size(); i++) buf[i] = (char)in[i];
+					frg::string_view v(buf, in.size());
+					const char *outcome = "completed";
+					std::string ri = "none", ru = "none", rl = "none", rul = "none";
+					try {
+						auto a = v.to_number<int>(); if(a) ri = std::to_string(*a);
+						auto b = v.to_number<unsigned>(); if(b) ru = std::to_string(*b);
+						auto c = v.to_number<int64_t>(); if(c) rl = std::to_string(*c);
+						auto d = v.to_number<uint64_t>(); if(d) rul = std::to_string(*d);
+					} catch(Panic &) { outcome = "assertion"; }
+					Ev("Parsed").str("parser", "to_number").raw("in", jarr(in)).str("outcome", outcome).i("fetches", 0).i("supplied", 0)
+						.raw("int", ri == "none" ? "[]" : jarr(bytes_of(ri))).raw("uint", ru == "none" ? "[]" : jarr(bytes_of(ru)))
+						.raw("int64", rl == "none" ? "[]" : jarr(bytes_of(rl))).raw("uint64", rul == "none" ? "[]" : jarr(bytes_of(rul))).emit();
+					free(buf);
 				} else if(mode == "logger") {
 					std::string text = j.string("text"); int pieces = j.num("pieces"); long long limit = j.num("limit");
 					if(limit == 2) logger_case<2>(text, pieces); else if(limit == 3) logger_case<3>(text, pieces);
